@@ -44,8 +44,11 @@ pub struct K1(pub u32);
 #[derive(Component, Reflect, Serialize, Deserialize, Default)]
 #[reflect(Component)]
 pub struct K2(pub u32);
+/// Its reflection type path is NOT its Rust type name (what a game does to keep its scene format stable).
 #[derive(Component, Reflect, Serialize, Deserialize, Default)]
 #[reflect(Component)]
+#[type_path = "game::stats"]
+#[type_name = "K3"]
 pub struct K3(pub u32);
 /// Registered, but without `#[reflect(Component)]`.
 #[derive(Component, Reflect, Serialize, Deserialize, Default)]
